@@ -1072,6 +1072,12 @@ pub fn gen_damage(rng: &mut Rng, len: usize, exec: &mut dyn FnMut(String) -> Str
     }
     let k = g.some_key();
     (g.exec)(format!("R tryinsert {}#777 777", k));
+    // ... and with a key that IS stored (an overwrite needs no structural change, but it is still a mutation of a
+    // map the validators reject), and one that is not
+    let k1 = g.present_key().unwrap_or(0);
+    (g.exec)(format!("R tryinsert {}#778 778", k1));
+    let k3 = g.some_key();
+    (g.exec)(format!("R tryremove {}", k3));
     let k2 = g.present_key().unwrap_or(0);
     (g.exec)(format!("R tryremove {}", k2));
     (g.exec)("R dump".into());
